@@ -140,6 +140,18 @@ let () =
       | mode :: cap :: inp -> Some (show_tresult (translate_ref !e_table (z_of_int mode) (List.map z_of_int inp) (z_of_int cap)))
       | _ -> failwith "TR")
 
+(* ---- backward engine for single-cell definition tables (uses the TB/TE table)
+   BK cap cells...   ->  "B consumed | chars | posmap"  / "B UNSUPPORTED"
+   OO                ->  "O <one_to_one> <defs_only>"                                        *)
+let () =
+  reg "BK" (fun ws -> match ints ws with
+      | cap :: inp -> (match back_run !e_table (List.map z_of_int inp) (z_of_int cap) with
+          | BOk (c, chars, pm) -> Some ("B " ^ string_of_int (int_of_z c) ^ " | " ^ show_zs chars ^ " | " ^ show_zs pm)
+          | BUnsupported -> Some "B UNSUPPORTED"
+          | BOutOfFuel -> Some "B OUTOFFUEL")
+      | _ -> failwith "BK");
+  reg "OO" (fun _ -> Some ("O " ^ b2s (one_to_one !e_table) ^ " " ^ b2s (defs_only !e_table)))
+
 (* ---- finishing code
    FF outlen L pm...     forward:  "F inlen | inputPos | outputPos"
    FB inlen outlen pm... backward: "F | inputPos | outputPos"                               *)
